@@ -1,0 +1,96 @@
+//go:build verif
+
+package ocsp
+
+// Verification hooks (build tag verif only): run the asn1.Unmarshal calls of ParseResponseForCert / ParseRequest on this
+// package's own unexported struct types and hand the decoded fields out, so that a model of encoding/asn1 instantiated at
+// those types can be compared with what the package really decodes. Nothing here is reachable without the tag.
+
+import (
+	"math/big"
+	"reflect"
+	"time"
+
+	"github.com/zmap/zcrypto/encoding/asn1"
+	"github.com/zmap/zcrypto/x509/pkix"
+)
+
+// ZVSingle is one decoded singleResponse.
+type ZVSingle struct {
+	HashAlgorithm    pkix.AlgorithmIdentifier
+	NameHash         []byte
+	IssuerKeyHash    []byte
+	SerialNumber     *big.Int
+	Good, Unknown    bool
+	RevocationTime   time.Time
+	Reason           int
+	ThisUpdate       time.Time
+	NextUpdate       time.Time
+	SingleExtensions []pkix.Extension
+}
+
+// ZVBasic is a decoded basicResponse.
+type ZVBasic struct {
+	Raw                []byte
+	Version            int
+	RawResponderID     asn1.RawValue
+	ProducedAt         time.Time
+	Responses          []ZVSingle
+	SignatureAlgorithm pkix.AlgorithmIdentifier
+	Signature          asn1.BitString
+	Certificates       []asn1.RawValue
+}
+
+// ZVUnmarshalOuter is the first asn1.Unmarshal of ParseResponseForCert (into responseASN1).
+func ZVUnmarshalOuter(der []byte) (status int, responseType asn1.ObjectIdentifier, response []byte, rest []byte, err error) {
+	var resp responseASN1
+	rest, err = asn1.Unmarshal(der, &resp)
+	if err != nil {
+		return
+	}
+	return int(resp.Status), resp.Response.ResponseType, resp.Response.Response, rest, nil
+}
+
+// ZVUnmarshalBasic is the second asn1.Unmarshal of ParseResponseForCert (into basicResponse).
+func ZVUnmarshalBasic(body []byte) (*ZVBasic, []byte, error) {
+	var b basicResponse
+	rest, err := asn1.Unmarshal(body, &b)
+	if err != nil {
+		return nil, nil, err
+	}
+	out := &ZVBasic{
+		Raw:                b.TBSResponseData.Raw,
+		Version:            b.TBSResponseData.Version,
+		RawResponderID:     b.TBSResponseData.RawResponderID,
+		ProducedAt:         b.TBSResponseData.ProducedAt,
+		SignatureAlgorithm: b.SignatureAlgorithm,
+		Signature:          b.Signature,
+		Certificates:       b.Certificates,
+	}
+	for _, s := range b.TBSResponseData.Responses {
+		out.Responses = append(out.Responses, ZVSingle{
+			HashAlgorithm:    s.CertID.HashAlgorithm,
+			NameHash:         s.CertID.NameHash,
+			IssuerKeyHash:    s.CertID.IssuerKeyHash,
+			SerialNumber:     s.CertID.SerialNumber,
+			Good:             bool(s.Good),
+			Unknown:          bool(s.Unknown),
+			RevocationTime:   s.Revoked.RevocationTime,
+			Reason:           int(s.Revoked.Reason),
+			ThisUpdate:       s.ThisUpdate,
+			NextUpdate:       s.NextUpdate,
+			SingleExtensions: s.SingleExtensions,
+		})
+	}
+	return out, rest, nil
+}
+
+// ZVTypes hands out the reflect.Type of the unexported struct types this package gives to encoding/asn1, so that a model's
+// description of them can be compared with the declarations (fields, order, struct tags) as the compiler sees them.
+func ZVTypes() map[string]reflect.Type {
+	return map[string]reflect.Type{
+		"ocspRequest":   reflect.TypeOf(ocspRequest{}),
+		"responseASN1":  reflect.TypeOf(responseASN1{}),
+		"basicResponse": reflect.TypeOf(basicResponse{}),
+	}
+}
